@@ -11,6 +11,7 @@ from harness.common import Machinery, workdir
 ENUM_CFG = "INIT EnumInit\nNEXT EnumNext\nCONSTRAINT EnumEmit\nINVARIANT LawsHold\nCHECK_DEADLOCK FALSE\n"
 JUDGE_CFG = "INIT JudgeInit\nNEXT JudgeNext\nCHECK_DEADLOCK FALSE\n"
 RENDER_CFG = "INIT RenderInit\nNEXT JudgeNext\nCHECK_DEADLOCK FALSE\n"
+LITERAL_FAMILIES = ("full0", "full1", "bref", "brefk", "cls", "mix0", "random")     # also run through a script regex literal
 STEP_LIMIT = 100000          # RegexVM.DEFAULT_STEP_LIMIT: the property's domain is "no budget exhausted"
 
 
@@ -68,7 +69,7 @@ def judge_patterns(rep, pats, subsets, tag):
         json.dump(subsets, f)
     cases = []
     for p in pats:
-        c = {"id": p["id"], "src": p["src"], "fl": flag_text(p["fl"]), "lit": bool(p["src"]) and p.get("lit", p["fam"] in ("full0", "full1", "bref", "mix0", "random"))}
+        c = {"id": p["id"], "src": p["src"], "fl": flag_text(p["fl"]), "lit": bool(p["src"]) and p.get("lit", p["fam"] in LITERAL_FAMILIES)}
         if p.get("sl") is not None:
             c["sl"] = p["sl"]
         else:
